@@ -155,6 +155,9 @@ func decArchiveInfo(src []byte) ([]byte, error, []byte, string) {
 	return rest, nil, c14Enc(a.AppendTo), fmt.Sprintf("s=%d n=%d", a.SecondsPerPoint(), a.NumberOfPoints())
 }
 
+// c14Light: the whole-domain sweep of the thorough tier does the non-empty-buffer probe on every 16th scalar only.
+var c14Light bool
+
 // c14ProbeAppend: when set, c14Enc also encodes onto non-empty buffers (an earlier message of another kind, with and
 // without spare capacity) and records in c14AppendIssue when that does not give "what was there + the encoding".
 var c14ProbeAppend bool
@@ -329,7 +332,7 @@ func c14Eval(k codec, cut int, trailer []byte) (sig, desc string, evals int64) {
 		var rest, reenc []byte
 		var err error
 		var extra string
-		c14ProbeAppend, c14AppendIssue = len(trailer) == 0, ""
+		c14ProbeAppend, c14AppendIssue = len(trailer) == 0 && !c14Light, ""
 		p, txt := fw.Guard(func() { rest, err, reenc, extra = dec(src) })
 		c14ProbeAppend = false
 		if p {
@@ -418,6 +421,7 @@ func runC14(c *fw.Ctx) {
 		if c.Thorough() && (k.name == "Timestamp" || k.name == "Duration") && k.enc[3] != 0 {
 			trailers = c14Trailers[:1] // whole-domain sweep: the trailer variants on every 256th value only
 		}
+		c14Light = c.Thorough() && (k.name == "Timestamp" || k.name == "Duration") && k.enc[3]&0x0f != 0
 		for _, tr := range trailers {
 			sig, desc, n := c14Eval(k, -1, tr)
 			c.Count("evaluations", n)
